@@ -19,7 +19,7 @@ class C: ...
 
 VALUES = [A(), B(), C(), 1, True, "a", None, [A()], [1], (1, "a"), 2.5, 2, "b", A, list[A], {"k": A()}, {"k": 1}, {}]
 
-GLOBALS_A = {"Thing": A, "typing": typing}
+GLOBALS_A = {"Thing": A, "typing": typing, "Annotated": Annotated}
 GLOBALS_C = {"Thing": C, "typing": typing}
 
 
@@ -51,6 +51,8 @@ GROUPS = {
     "annotated_type": [Annotated[type, "meta"], type],
     "annotated_union": [Annotated[A | int, "meta"], A | int],
     "string_annotation": ["Thing", A],
+    "string_naming_an_annotated_form": ["Annotated[Thing, 'm']", Annotated[A, "m"], A],
+    "string_naming_an_annotated_generic": ["Annotated[list[Thing], 'm']", Annotated[list[A], "m"], list[A]],
     "string_any": ["typing.Any", Any],
     "string_type": ["type", type],
     "list_generic": [list[A], typing.List[A]],
@@ -128,6 +130,29 @@ def main():
     b2 = behaviour("Thing", [], GLOBALS_C)
     if b2 != behaviour(C, [], None) or b1 != behaviour(A, [], None):
         fail("string_annotation_resolved_in_its_own_namespace", in_A=b1[:3], in_C=b2[:3])
+    # a multi-valued Literal in either order, next to a second value-conditioned parameter and a fallback method
+    def two_param(ann):
+        ov = Ovld(name="lp")
+        g = {"ANN": ann, "Literal": Literal}
+        exec("def m(x: ANN, y: Literal[5]):\n    return 'literal'\n", g)
+        ov.register(g["m"])
+
+        def fb(x: object, y: object):
+            return "fallback"
+
+        ov.register(fb)
+        res = []
+        for a_ in ((1, 5), (2, 5), (1, 99), (2, 99), (3, 5)):
+            try:
+                res.append(ov(*a_))
+            except TypeError as e:
+                res.append("AMBIGUOUS" if str(e).startswith("Ambiguous") else "TypeError")
+        return res
+
+    n += 1
+    r12, r21 = two_param(Literal[1, 2]), two_param(Literal[2, 1])
+    if r12 != r21 or r12 != ["literal", "literal", "fallback", "fallback", "fallback"]:
+        fail("literal_reordered_next_to_a_second_condition", first_order=r12, second_order=r21)
     # re-registering a reordered union replaces instead of adding a second method
     ov = Ovld(name="r")
     ov.register(fn_with(A | int, None, "first"))
